@@ -71,7 +71,7 @@ func c14Worker(c *core.Collector, x *Ctx) {
 			return hookFrameV(v19, id, serial, frag, sum, no, body)
 		}
 		hb := func(serial uint16) []byte { return hookFrameV(v19, 0x0002, serial, false, 0, 0, nil) }
-		for variant := 0; variant < 6; variant++ {
+		for variant := 0; variant < 7; variant++ {
 			bodies := c05Bodies(r, j.N, variant&1)
 			b := &builder{}
 			var missing []int
@@ -85,6 +85,28 @@ func c14Worker(c *core.Collector, x *Ctx) {
 					}
 					feed(b, hookFrame(false, id, uint16(1000+k), true, uint16(j.N), uint16(k), bodies[k-1]))
 				}
+			}
+			if variant == 6 {
+				// the terminal abandons this incomplete message and starts a NEW one with the same ID (other serials, other
+				// bodies, the same packets missing): the re-request names the NEW first packet and the new body is delivered
+				age(b, 1200)
+				nb := c05Bodies(r, j.N, 1)
+				nfirst := first + 200
+				feed(b, hookFrame(false, id, nfirst, true, uint16(j.N), 1, nb[0]))
+				for k := 2; k <= j.N; k++ {
+					if j.mask>>(k-2)&1 == 0 {
+						feed(b, hookFrame(false, id, uint16(5000+k), true, uint16(j.N), uint16(k), nb[k-1]))
+					}
+				}
+				age(b, 4500)
+				feed(b, hb(1))
+				age(b, 1000)
+				feed(b, hb(2)) // exactly one re-request, naming nfirst
+				for _, k := range missing {
+					feed(b, hookFrame(false, id, uint16(6000+k), true, uint16(j.N), uint16(k), nb[k-1]))
+				}
+				run("subset variant=6 (abandoned and restarted)", b)
+				continue
 			}
 			if variant == 4 {
 				age(b, 3000)
